@@ -135,7 +135,7 @@ fn check_one(ctx: &Ctx, table: &Table, line: &str, origin: &str) {
     let bound = 50 * (ntok + 1) * (table.len() + 1);
     let g = glossary(table, bound);
     crate::util::LAST_PANIC_LOC.with(|l| l.borrow_mut().clear());
-    let real = std::panic::catch_unwind(std::panic::AssertUnwindSafe(|| c06::parse_all_with(line, &g)));
+    let real = std::panic::catch_unwind(std::panic::AssertUnwindSafe(|| c06::parse_all_with(line, &g, bound)));
     crate::util::unguard_case();
     let real = match real {
         Ok(r) => r,
@@ -196,8 +196,29 @@ fn check_one(ctx: &Ctx, table: &Table, line: &str, origin: &str) {
     }
 }
 
+/// cases that exposed defects earlier (run in every tier)
+const REGRESSION: [(&str, &str, &str, &str); 4] = [
+    ("b\nc", " ", "b", "x && a \\b || v=a \\b"),
+    ("b\nc", "", "x\t", "x && \\\n a"),
+    (" ", "x &&", "b ", "b a\na'c' \\b"),
+    ("\nx", "b", "b", "x || a"),
+];
+
 pub fn run(ctx: &Ctx) {
     let quick = ctx.quick();
+    for (a, b, c, line) in REGRESSION {
+        let mut table = Table::new();
+        for (n, v) in [("a", a), ("b", b), ("c", c)] {
+            table.insert(
+                n.to_string(),
+                AliasDef {
+                    value: v.to_string(),
+                    global: false,
+                },
+            );
+        }
+        check_one(ctx, &table, line, "regression case");
+    }
     let mut values: Vec<&str> = VALUES_QUICK.to_vec();
     if !quick {
         values.extend(VALUES_MORE);
